@@ -1,5 +1,6 @@
 from yowsup.layers import YowProtocolLayer
 from .protocolentities import *
+from yowsup.layers.protocol_iq.protocolentities import ErrorIqProtocolEntity
 import logging
 
 logger = logging.getLogger(__name__)
@@ -36,4 +37,10 @@ class YowContactsIqProtocolLayer(YowProtocolLayer):
 
     def sendIq(self, entity):
         if entity.getXmlns() == "urn:xmpp:whatsapp:sync":
-            self.toLower(entity.toProtocolTreeNode())
+            self._sendIq(entity, self.onGetSyncResult, self.onGetSyncError)
+
+    def onGetSyncResult(self, node, originalIqEntity):
+        self.recvIq(node)
+
+    def onGetSyncError(self, node, originalIqEntity):
+        self.toUpper(ErrorIqProtocolEntity.fromProtocolTreeNode(node))
